@@ -28,3 +28,24 @@ Theorem C10_close_after_handlers : forall cfg s i c, reachable cfg s -> conn_of 
   onclose c <= 1 /\ (onclose c = 1 -> inflight c = 0 /\ hs c = [] /\ sock_closed c = true).
 Proof. exact c08_once_after_handlers. Qed.
 Print Assumptions C10_close_after_handlers.
+
+(* gldap sends no response to an Unbind: reading it puts nothing on the wire, the
+   teardown that follows is silent, and the read loop never writes anything of its
+   own except the notice of disconnection after Stop and what an inline handler's
+   script writes ([sent] counts the LDAPMessages gldap has written on the connection) *)
+Theorem C10_no_response_to_unbind : forall cfg s c c' e sc rest, pc c = CRead -> input c = IReq KUnbind sc :: rest ->
+  conn_step cfg s c = Some (c', e) -> sent c' = sent c.
+Proof. exact c10_no_response_to_unbind. Qed.
+Print Assumptions C10_no_response_to_unbind.
+
+Theorem C10_teardown_is_silent : forall cfg s c c' e todo, pc c = CTeardown todo ->
+  conn_step cfg s c = Some (c', e) -> sent c' = sent c.
+Proof. exact c10_teardown_is_silent. Qed.
+Print Assumptions C10_teardown_is_silent.
+
+Theorem C10_loop_writes : forall cfg s c c' e, conn_step cfg s c = Some (c', e) ->
+  sent c' = sent c \/
+  (pc c = CLoopTop /\ cancelled s = true /\ sent c' = S (sent c)) \/
+  (exists k rest, pc c = CInline k (HWrite :: rest) /\ sent c' = S (sent c)).
+Proof. exact c10_loop_writes. Qed.
+Print Assumptions C10_loop_writes.
